@@ -12,27 +12,27 @@ TRUST = ("Trusted: Coq 8.16.1 kernel (no axioms: every theorem is checked to pri
 CHECKS = {
     "C01": dict(
         technique="Coq proof (piece program as interaction tree: only good operations for EVERY read answer/op result; byte invariant for any order of set_len/writes; lifted to the FS model) + trace validation of real runs against the extracted model + write-log oracle",
-        text="C01_piece_issues_only_good_ops holds for every answer the environment can give (hence every interleaving, candidate/decoy combination and prior export state), C01_accepted_traces_are_good links validated traces to it, C01_fs_bytes_sound gives 'old byte / zero of extension / torrent byte' for every inode. Each of 260 (2500 thorough) generated runs of the real start() is replayed event by event against the extracted programs, index, work list and FS model, and checked by an independent byte-provenance oracle.",
-        ref="DESIGN.md section 5 C01", note="Hypothesis cr (collision-freeness at the touched points) and wf_piece (from the layout, C06) are explicit premises."),
+        text="C01_piece_issues_only_good_ops holds for every answer the environment can give (hence every interleaving, candidate/decoy combination and prior export state), C01_accepted_traces_are_good links validated traces to it, C01_fs_bytes_sound gives 'old byte / zero of extension / torrent byte' for every inode. Each of 260 (2500 thorough) generated runs of the real start() is replayed event by event against the extracted programs, index, work list and FS model, and checked by an independent byte-provenance oracle. WHOLE RUN (SystemModel/SystemProofs/GlueProofs): the scanning phase is a transition system (pool of piece programs over one shared file system; steps = any program's next action, failed operations, arbitrary read answers, a write cut short); C01_whole_run_bytes_sound proves the byte invariant in EVERY reachable state for the table and work list the model builds from loadable torrents; the validator replays the events of all pieces in global order through the extracted sys_event, every accepted event being a step of that system (sys_event_sound).",
+        ref="DESIGN.md section 0.7 and 5 C01", note="Remaining premises of the whole-run theorem (run_setup): collision-freeness of the content at every piece, one file per export path, no two export paths initially hard-linked; the wf_piece side conditions are now PROVED from the layout theorems for every piece of the work list (C01_every_work_piece_good)."),
     "C02": dict(
         technique="Coq proof (candidate index complete and sound for every hash-map order; de-duplication keeps representatives; exhaustive combination search; available => Success with the segments written) + trace validation + independent availability oracle",
         text="C02_candidates_complete/sound, C02_witnesses_give_combination, C02_search_exhaustive, C02_available_piece_recovered: at the program level, a piece whose every segment has a readable candidate holding the torrent's bytes succeeds and writes every segment not sourced from its own export file. Tied to the code by replaying 300 (3000) generated runs against the model and by an availability oracle computed from the initial snapshot.",
         ref="DESIGN.md section 5 C02", note="Statement-level hypotheses: fault-free run, witnesses stay in place; the file-system effect of the emitted operations is the FS model's (validated against real runs)."),
     "C03": dict(
         technique="Coq proof (every mutating op targets an entry's export path or its parent; table paths confined to export/<hex>/Data; open modes from Generated.v) + whole-sandbox snapshot oracle + trace validation",
-        text="C03_targets_confined, C03_open_modes (re-extracted flags), C03_resize_ops_on_targets, C03_unnamed_inodes_unchanged and the plain-name clause of the loader; tied to the code by before/after snapshots of the whole sandbox, every open mode in the fs-shim log, scan directories overlapping/containing the export directory, and trace validation.",
+        text="C03_targets_confined, C03_open_modes (re-extracted flags), C03_resize_ops_on_targets, C03_unnamed_inodes_unchanged and the plain-name clause of the loader; tied to the code by before/after snapshots of the whole sandbox, every open mode in the fs-shim log, scan directories overlapping/containing the export directory, and trace validation. WHOLE RUN (SystemModel/SystemProofs/GlueProofs): the scanning phase is a transition system (pool of piece programs over one shared file system; steps = any program's next action, failed operations, arbitrary read answers, a write cut short); C03_whole_run_outside_untouched: in every reachable state no path is removed or retyped, every inode that is not an export image keeps its exact content, and whatever appears is an export image or a directory on the way to one.",
         ref="DESIGN.md section 5 C03", note="Lexical confinement: assumes no symbolic link inside an export subtree."),
     "C11": dict(
         technique="Coq proof (cut-off traces of good programs are good, byte invariant under any prefix incl. cut writes, verified ranges survive) + crash injection at every mutating operation with re-run",
-        text="C11_cut_traces_are_good, C11_interrupted_bytes_sound, C11_verified_ranges_survive; the fs shim cuts the process at the k-th file operation (writes after 0/1/len-1 bytes), the interrupted tree is checked byte for byte and replayed as a cut-off trace of the model, and a clean re-run must recover everything that was available.",
+        text="C11_cut_traces_are_good, C11_interrupted_bytes_sound, C11_verified_ranges_survive; the fs shim cuts the process at the k-th file operation (writes after 0/1/len-1 bytes), the interrupted tree is checked byte for byte and replayed as a cut-off trace of the model, and a clean re-run must recover everything that was available. WHOLE RUN (SystemModel/SystemProofs/GlueProofs): the scanning phase is a transition system (pool of piece programs over one shared file system; steps = any program's next action, failed operations, arbitrary read answers, a write cut short); C11_every_interrupted_state_sound: the invariant SI holds in every reachable state, which includes every crash point and the cut write.",
         ref="DESIGN.md section 5 C11", note="Crash = process kill (kernel state survives); power loss is outside the statement."),
     "C12": dict(
         technique="Coq proof (target shape, SetLen = declared length, padding never in a mutating op, disjoint subtrees via hex injectivity) + export-tree listing oracle + trace validation",
-        text="C12_single/multi_file_location, C12_dir_name_length, C12_only_targets_declared_length, C12_subtrees_disjoint; tied to the code by the tree listing after each generated run and trace validation.",
+        text="C12_single/multi_file_location, C12_dir_name_length, C12_only_targets_declared_length, C12_subtrees_disjoint; tied to the code by the tree listing after each generated run and trace validation. WHOLE RUN (SystemModel/SystemProofs/GlueProofs): the scanning phase is a transition system (pool of piece programs over one shared file system; steps = any program's next action, failed operations, arbitrary read answers, a write cut short); C12_whole_run_creates_only_export_images.",
         ref="DESIGN.md section 5 C12"),
     "C13": dict(
         technique="Coq proof (unconditional structural facts: an error answer leads to Ret Fault after releasing the lock; lock discipline; goodness for error answers) + fault injection at every file operation (singles and pairs)",
-        text="C13_fault_ends_the_piece and C13_no_lock_leaked hold for every piece with no hypothesis; C13_ops_before_fault_good; the fs shim fails the k-th operation (open, fstat, read, create_dir_all, set_len, seek, write; pairs too) and each faulty run is replayed against the model and checked for confinement, counters and byte correctness.",
+        text="C13_fault_ends_the_piece and C13_no_lock_leaked hold for every piece with no hypothesis; C13_ops_before_fault_good; the fs shim fails the k-th operation (open, fstat, read, create_dir_all, set_len, seek, write; pairs too) and each faulty run is replayed against the model and checked for confinement, counters and byte correctness. WHOLE RUN (SystemModel/SystemProofs/GlueProofs): the scanning phase is a transition system (pool of piece programs over one shared file system; steps = any program's next action, failed operations, arbitrary read answers, a write cut short); C13_whole_run_other_pieces_unaffected: after any failures every program still in the pool is good.",
         ref="DESIGN.md section 5 C13"),
     "C14": dict(
         technique="Coq proof (prelude program evaluated against an arbitrary probe-answer function: abort with no mutation on any over-long file; exactly the shorter files extended to the declared length; no mutation without the flag) + pre-flight oracle + prelude trace validation",
@@ -44,11 +44,11 @@ CHECKS = {
         ref="DESIGN.md section 5 C15", note="'Every piece evaluated exactly once' is C05; 'available => succeeded' relies on C02 (checked by oracle here)."),
     "C16": dict(
         technique="Coq proof (bad path in any position => Fault with no mutating op; no piece program panics; loader total) + child-process runs (bad paths, no/unloadable torrents, degenerate torrents, CLI binary)",
-        text="Partial: C16_bad_path_no_effect, C16_piece_never_panics, C16_load_total are theorems of the model; allocation failure is runtime (known finding K2). Bad paths of every kind in every position, runs without loadable torrents, degenerate loadable torrents and the CLI binary are exercised as child processes.",
+        text="Partial: C16_bad_path_no_effect, C16_piece_never_panics, C16_load_total are theorems of the model; allocation failure is runtime (known finding K2). Bad paths of every kind in every position, runs without loadable torrents, degenerate loadable torrents and the CLI binary are exercised as child processes. WHOLE RUN (SystemModel/SystemProofs/GlueProofs): the scanning phase is a transition system (pool of piece programs over one shared file system; steps = any program's next action, failed operations, arbitrary read answers, a write cut short); C16_whole_run_no_panic; C16_loaded_torrent_ok ties the loader to the premises of the layout/work-list theorems.",
         ref="DESIGN.md section 5 C16", note="Allocation failure and thread panics at join are runtime."),
     "C04": dict(
         technique="Coq proof (export file first for every hash-map order; verified piece => Success with NO mutating operation; verified ranges survive every admissible operation; no truncate flags) + histories of runs with write-log oracle",
-        text="C04_export_file_is_first_candidate, C04_verified_multi/single_piece_not_written, C04_verified_ranges_preserved, C04_never_truncates; tied to the code by histories of 2-6 runs on one tree (changing scan sets, torrent subsets, flags, thread counts; finished export files hard-linked into scan directories), the write log intersected with previously verified ranges, and trace validation of every run.",
+        text="C04_export_file_is_first_candidate, C04_verified_multi/single_piece_not_written, C04_verified_ranges_preserved, C04_never_truncates; tied to the code by histories of 2-6 runs on one tree (changing scan sets, torrent subsets, flags, thread counts; finished export files hard-linked into scan directories), the write log intersected with previously verified ranges, and trace validation of every run. WHOLE RUN (SystemModel/SystemProofs/GlueProofs): the scanning phase is a transition system (pool of piece programs over one shared file system; steps = any program's next action, failed operations, arbitrary read answers, a write cut short); C04_whole_run_verified_preserved: a range holding the torrent's bytes holds them in every reachable state.",
         ref="DESIGN.md section 5 C04", note="'verifies' for the no-rewrite clause = export files of the declared length (exact reading); preservation/monotonicity use the loose reading."),
     "C05": dict(
         technique="Coq proof (labelled transition system of the executor: 15-field invariant, conservation, exactly-once, deadlock freedom, strictly decreasing measure; concrete rebalancing relation proved a permutation / even) + deterministic-scheduler runs of the real executor",
@@ -56,7 +56,7 @@ CHECKS = {
         ref="DESIGN.md section 5 C05", note="std Mutex/thread semantics and the memory model are assumed; the shim assumes sequential consistency at scheduling points."),
     "C06": dict(
         technique="Coq proof (induction over the cursor loop, closed-form interval spec) + differential run of the extracted model against Pieces::from_torrent",
-        text="Theorems C06_layout_multi / C06_layout_single / C06_hash_count and the partition theorems hold for all file-length vectors and piece lengths with u64 checks explicit; the model is tied to pieces.rs by an exhaustive small-vector and u64-boundary differential run with an independent interval oracle.",
+        text="Theorems C06_layout_multi / C06_layout_single / C06_hash_count and the partition theorems hold for all file-length vectors and piece lengths with u64 checks explicit; the model is tied to pieces.rs by an exhaustive small-vector and u64-boundary differential run with an independent interval oracle; C06_loaded_torrent_layout: for every torrent the loader returns the layout model returns Ok with non-empty pieces whose segments lie inside the files they name; the loader's hash-count test is run against the model on totals far above 2^64.",
         ref="DESIGN.md section 5 C06"),
     "C07": dict(
         technique="Coq proof (info span = encoding of the info value via exact spans; hex round-trip) + differential run against Torrent::from_bytes, get_sha1_hexdigest and the sha1 crate",
